@@ -414,7 +414,11 @@ class Project:
                 continue
             # A file that the version control system ignores (an editor's
             # backup of a licence text, say) is no file of the project.
-            if self.vcs_strategy.is_ignored(path):
+            if self.vcs_strategy.is_ignored(path) or any(
+                self.vcs_strategy.is_ignored(parent)
+                for parent in Path(path).parents
+                if parent.is_relative_to(self.root / "LICENSES")
+            ):
                 continue
 
             path = self.relative_from_root(path)
